@@ -179,6 +179,15 @@ class SetWrapper(typing.MutableSet[T]):
     def discard(self, v: T) -> None:
         return self._data.discard(v)
 
+    @classmethod
+    def _from_iterable(cls, it: typing.Iterable[S]) -> typing.Set[S]:
+        # The abc mixins build the results of the binary operators (&, -, ^
+        # and the reflected forms) through this hook. Those results are
+        # plain sets, like the result of |: subclasses take extra constructor
+        # arguments and own their elements, so they cannot be instantiated
+        # from just an iterable.
+        return set(it)
+
     # end functions for ABC
 
     # The version of typing.py which comes with python 3.5.2 doesn't provide
